@@ -194,10 +194,12 @@ enum PolicyStateKind<C> {
     },
     // mpc computation is executing in a separate tokio task
     Executing {
-        // use Notify because we notify in both directions, first from the `cancel` method
-        // to the tokio task to signal cancellation, and then the other direction if the
-        // cancel error has been sent to the output URL
+        // notified by the `cancel` method to signal cancellation to the tokio task
         cancel: Arc<Notify>,
+        // notified by the tokio task once it has ended, i.e. after the cancel error (or the
+        // result) has been sent to the output URL. A separate Notify is needed, as otherwise
+        // `cancel` could consume its own notification before the task has seen it.
+        done: Arc<Notify>,
     },
 }
 
@@ -783,10 +785,20 @@ where
                 let tmp_dir = self.tmp_dir_path.clone();
                 let cmd_tx = self.cmd_tx.clone();
                 let cancel = Arc::new(Notify::new());
+                let done = Arc::new(Notify::new());
                 self.state_kind = PolicyStateKind::Executing {
                     cancel: Arc::clone(&cancel),
+                    done: Arc::clone(&done),
                 };
                 let fut = async move {
+                    // notify `done` when this task ends, in whichever way
+                    struct NotifyOnDrop(Arc<Notify>);
+                    impl Drop for NotifyOnDrop {
+                        fn drop(&mut self) {
+                            self.0.notify_one();
+                        }
+                    }
+                    let _done = NotifyOnDrop(done);
                     let mpc_fut = async {
                         debug!("starting mpc computation");
                         // Move permit into the async task so that its desctructor is run when the task is finished
@@ -837,7 +849,6 @@ where
                             if let Err(err) = send_cancel(channel.client, policy).await {
                                 error!(%err, "unable to send cancelled error to output destination")
                             }
-                            cancel.notify_one();
                         }
                     )
                 };
@@ -1069,12 +1080,12 @@ where
                 channel: Channel { client, .. },
                 ..
             } => (client, policy),
-            PolicyStateKind::Executing { cancel } => {
+            PolicyStateKind::Executing { cancel, done } => {
                 // send_cancel is called in spawned mpc tokio task
                 cancel.notify_one();
-                // when this is notified, the error has been sent to output
-                // destination if available
-                cancel.notified().await;
+                // when this is notified, the error (or the result, if the computation had
+                // already finished) has been sent to the output destination if available
+                done.notified().await;
                 let _ = ret.send(Ok(()));
                 return;
             }
